@@ -302,7 +302,7 @@ func h2c(w *tr.W, seed uint64, n int, repo string) {
 					"k": fmt.Sprintf("hash:%s:dst=%s:msg=%s", s.name, short(d), hex.EncodeToString(m)), "suite": s.name,
 					"dst": toks.tok("dst", []byte(d)), "msg": toks.tok("msg", m),
 					"out": toks.tok("pt:"+s.name, r1.enc), "out2": toks.tok("pt:"+s.name, r2.enc),
-					"xy": toks.tok("xy:"+s.name, append(append([]byte{}, r1.x...), r1.y...)),
+					"xy":  toks.tok("xy:"+s.name, append(append([]byte{}, r1.x...), r1.y...)),
 					"err": r1.err || r2.err, "tf": r1.tf, "killed": r1.killed, "id": r1.id})
 			}
 			// the documented default
